@@ -71,8 +71,8 @@ CLAIMED = {
              'documented key (parts / {is_absolute, normalized_segments} / as_pct_str / derived raw bytes) and are applied symmetrically to both operands, so == is the '
              'kernel of a key function (reflexive, symmetric, transitive given the component relations); the *Parts field types put Option exactly where presence counts; '
              'totality: every panic entry reachable from any eq in the instance graph is discharged by an automata lemma over the compiled languages (TRIPLETS) or a named reason, '
-             'and slice panics in the accessor layer by the C02/C03 obligations.',
-        design_ref='DESIGN.md §4 C07, Engine C (C-key, C-panic), Engine A',
+             'and slice panics in the accessor layer by the C02/C03 obligations. Equality between two different library types (owned vs borrowed, full vs reference; 64 impls) is the equality of borrowed library types applied to total views of both operands, in order — never the plain-text comparison (views evaluated with the conversion evaluator of C13).',
+        design_ref='DESIGN.md §4 C07, Engine C (C-key, C-panic), Engine A, §10.18',
         note='NOT decided: "exactly when" for all pairs (run-time semantics of dot-segment normalisation), termination of iterator loops. Relies on hand model of pct-str Bytes (iv/pct.py). '
              'Genuine defect F7 (== panicked on %80, equated %C0%AF with %2F) was repaired in /repo by a fix: commit; the check fails with witnesses on the pre-fix tree.',
         technique='key-projection extraction from MIR + panic-site discharge on the instance graph + automata lemmas (static analysis)',
@@ -83,7 +83,7 @@ CLAIMED = {
         text='Structural decision for every comparable type: eq, cmp and hash use the same key projection (views to other library types resolved), applied symmetrically; '
              'partial_cmp is Some(cmp); the 57 owned forwarders call the borrowed impl; *Parts derive all five traits; and for each of the 29 Borrow impls between library types '
              'the hash SHAPE (sequence of values fed to the hasher, Option adding a discriminant, recursively) of A equals that of the borrowed B — inequality is a definite '
-             'contract breach for any real hasher. Path::eq and Path::cmp of both families (the only hand-written comparison algorithms) are decided semantically by a small abstract execution of their MIR, once per combination of the two kinds, one loop iteration at a time, against one key table — (is_absolute, normalised segments...), false < true, a proper prefix is Less, equality = same kind and element-wise equal sequences — so they agree with each other whatever their texts look like. The two families compare alike otherwise: the URI/IRI twin pairs of eq / cmp / partial_cmp / hash have the same callees, constants and branches and apply each call to the same arguments (a self/other swap in one family would make a BTreeMap keyed by UriBuf unsearchable through Borrow<Iri>).',
+             'contract breach for any real hasher. The 128 cross-type PartialEq<B>/PartialOrd<B> impls between two different library types are each the comparison of borrowed library types applied to (a total view of self, a total view of other) in that order — views evaluated with the conversion evaluator of C13; a text view or swapped operands are reported. Path::eq and Path::cmp of both families (the only hand-written comparison algorithms) are decided semantically by a small abstract execution of their MIR, once per combination of the two kinds, one loop iteration at a time, against one key table — (is_absolute, normalised segments...), false < true, a proper prefix is Less, equality = same kind and element-wise equal sequences — so they agree with each other whatever their texts look like. The two families compare alike otherwise: the URI/IRI twin pairs of eq / cmp / partial_cmp / hash have the same callees, constants and branches and apply each call to the same arguments (a self/other swap in one family would make a BTreeMap keyed by UriBuf unsearchable through Borrow<Iri>).',
         design_ref='DESIGN.md §4 C08, Engine C (C-key)',
         note='Coherence is structural (same key), not a value-level proof that cmp==Equal ⇔ eq. Genuine defects F4 (Uri/Iri vs reference hash) and F8 (DataUrlBuf derived over derived data) were repaired by fix: commits; '
              'the check reports all 7 pairs on the pre-fix tree.',
@@ -124,7 +124,7 @@ CLAIMED = {
         text='All symbolic paths of set_userinfo/set_host/set_port (None and Some) are explored with affine values: Δ(self.end) equals the net length change of the splices, '
              'start is fixed, splices lie in the window, holes are tiled exactly (lengths and delimiter bytes), no usize subtraction can underflow — an inductive invariant of the handle, '
              'so it holds after any sequence of calls in any order. The three scanners are re-verified by Engine B in parametric-start mode (arbitrary offset in a larger buffer: they '
-             'return exactly the sub-component span and never read outside the authority). Handle wiring (find_authority window) and family twins are checked.',
+             'return exactly the sub-component span and never read outside the authority). Handle wiring (find_authority window) and family twins are checked; what the handle hands out (as_authority / into_authority) wraps exactly buffer[self.start..self.end], the window that invariant is about.',
         design_ref='DESIGN.md §3 Engine D (D1, D2), Engine B parametric start, §4 C11',
         note='That the edited text re-parses with exactly the requested sub-component value (language closure, D3) is decided under C04/C05 for the reference setters; for the authority handle the splice target '
              'is the verified scanner span or the authority edge plus the literal delimiter, which is what D1/D2/B establish. Genuine defect F3 was repaired by a fix: commit; all five unbalanced paths are reported on the pre-fix tree.',
